@@ -381,6 +381,7 @@ func (c *Ctx) ghostOwner(t types.Type) (*types.Named, *TypeDecl) {
 	if tp, ok := t.(*types.TypeParam); ok {
 		t = tp.Constraint()
 	}
+	t = types.Unalias(t) // os.FileInfo = fs.FileInfo
 	if n, ok := t.(*types.Named); ok {
 		if td := c.typeDecl(n); td != nil {
 			return n, td
